@@ -1,0 +1,11 @@
+//go:build verif
+
+package gtfs
+
+import "github.com/jamespfennell/gtfs/internal/verifhook"
+
+// SetVerifHook installs the function called at the scheduling points of the parsers.
+// It only exists when the module is built with the `verif` build tag.
+func SetVerifHook(f func(site string)) {
+	verifhook.Set(f)
+}
